@@ -11,7 +11,7 @@ Transcribed function by function from
  * `as.c Produce_Code`      – `NLS_UpString(OpPart)` (ASCII part of the NLS table)
 
 Lines are `List Char` (8-bit).  Outside the model: `ExpandDefines` (identity unless `#define` is used), `STRINGSIZE`
-truncation of label/attribute (255), `ArgCntMax`, the 8-bit wrap of the bracket counters (`ShortInt`), fgets
+truncation of label/attribute (`STRINGSIZE` - 1), `ArgCntMax`, the 8-bit wrap of the bracket counters (`ShortInt`), fgets
 fragmenting of lines longer than the line buffer, `!`-prefix and `{sym}` expansion of the mnemonic. -/
 namespace AslModel.Split
 open AslModel.SrcLine (Fields upStr)
@@ -406,6 +406,90 @@ def preprocess (line : List Char) : Option (List Char × List Char × List Char)
       | none => none
     else if cmd == "UNDEF".toList then some (cmd, h, [])
     else none
+
+/-! ## The component buffers of SplitLine
+
+`SplitLine` does not work on the line itself: the comment, the argument field and every single argument are copied
+into buffers of their own (`CommPart`, `ArgPart`, `ArgStr[i]`; `asmdef.c`: `StrCompAlloc(.., STRINGSIZE)`), which grow
+in steps of 128 characters.  Transcribed:
+ * `dynstr.h as_dynstr_roundup_len`   – `((len) + 128) & ~127`
+ * `strutil.c strmemcpy`              – copy limited to capacity - 1 characters (room for the NUL)
+ * `as.c adjust_copy_comp`            – grow if `newsz + 1 > capacity`, then `strmemcpy`
+ * `asmdef.c AppendArg`               – grow `ArgStr[ArgCnt]` if `capacity <= ReqSize`
+ * `dynstr.c as_dynstr_realloc`       – the capacity becomes the requested one (out of memory is outside the model)
+`splitBuf` is `split` with these copies in place; `Props/C16_Long.lean` proves that no copy ever loses a character, for
+every capacity history - which is what allows `split` to work on unbounded lists. -/
+
+/-- `STRINGSIZE` (datatypes.h): initial capacity of every component buffer -/
+def stringSize : Nat := 1024
+
+/-- `as_dynstr_roundup_len` -/
+def roundupLen (n : Nat) : Nat := (n + 128) / 128 * 128
+
+/-- `strmemcpy(dest, cap, src, src.length)`: what is stored -/
+def strmemcpy (cap : Nat) (src : List Char) : List Char :=
+  if cap < src.length + 1 then src.take (cap - 1) else src
+
+/-- `adjust_copy_comp`: (capacity afterwards, stored text) -/
+def adjustCopyComp (cap : Nat) (src : List Char) : Nat × List Char :=
+  let cap' := if src.length + 1 > cap then roundupLen src.length else cap
+  (cap', strmemcpy cap' src)
+
+/-- `AppendArg(ReqSize)`: capacity of the argument buffer afterwards -/
+def appendArgCap (cap req : Nat) : Nat := if cap ≤ req then roundupLen req else cap
+
+/-- capacities of `CommPart`, `ArgPart` and of the argument buffers `ArgStr[1..]` (missing entries = `STRINGSIZE`) -/
+structure Caps where
+  comm : Nat := stringSize
+  arg : Nat := stringSize
+  args : List Nat := []
+  deriving DecidableEq, Repr
+
+/-- the argument field as SplitLine hands it to `adjust_copy_comp` (before `KillPostBlanks`) -/
+def argPartOf (p : Params) (line : List Char) : List Char :=
+  let lr := splitLabel (cutComment p line).1
+  (splitOpAux p.divideChars (lr.2.length + 1) lr.1 lr.2).2.2
+
+/-- "Argumente zerteilen" with the per-argument buffers: (capacities afterwards, arguments) -/
+def splitArgsBufAux (p : Params) : Nat → List Char → Bool → List Nat → List Nat × List (List Char)
+  | 0, _, _, caps => (caps, [])
+  | n + 1, run, forced, caps =>
+    if run.isEmpty && !forced then (caps, [])
+    else
+      let r := run.dropWhile isSpace
+      let dp := divPos p r
+      let raw := r.take dp.1
+      let c0 := caps.headD stringSize
+      let cp := adjustCopyComp (appendArgCap c0 raw.length) raw
+      let rest := splitArgsBufAux p n (r.drop (dp.1 + 1)) dp.2 caps.tail
+      (cp.1 :: rest.1, trimRight cp.2 :: rest.2)
+
+def splitArgsBuf (p : Params) (argPart : List Char) (caps : List Nat) : List Nat × List (List Char) :=
+  let ap := trimRight argPart
+  if ap.isEmpty then (caps, []) else splitArgsBufAux p (ap.length + 2) ap false caps
+
+/-- `SplitLine` with its component buffers: (capacities afterwards, fields) -/
+def splitBuf (c : Caps) (p : Params) (line : List Char) : Caps × Fields :=
+  let cc := cutComment p line
+  let cm := if cc.2.isEmpty then (c.comm, []) else adjustCopyComp c.comm cc.2
+  let lr := splitLabel cc.1
+  let t := splitOpAux p.divideChars (lr.2.length + 1) lr.1 lr.2
+  let ap := adjustCopyComp c.arg t.2.2
+  let od := opTrailDiv p.divideChars t.2.1
+  let oa := splitAttr p od.1
+  let sa := splitArgsBuf p ap.2 (if od.2.isEmpty then c.args else c.args.tail)
+  (⟨cm.1, ap.1, (if od.2.isEmpty then [] else [c.args.headD stringSize]) ++ sa.1⟩, ⟨t.1, oa.1, oa.2, od.2 ++ sa.2⟩)
+
+/-- a whole sequence of lines through the same buffers (one assembler run): fields of every line, and how many lines had
+an argument field / a comment exactly as long as the buffer's capacity at that moment (the copy needs one more for the NUL) -/
+def splitBufRun (p : Params) : Caps → List (List Char) → List Fields × Nat × Nat
+  | _, [] => ([], 0, 0)
+  | c, l :: ls =>
+    let r := splitBuf c p l
+    let rest := splitBufRun p r.1 ls
+    let ha := if (argPartOf p l).length == c.arg then 1 else 0
+    let hc := if (cutComment p l).2.length == c.comm then 1 else 0
+    (r.2 :: rest.1, rest.2.1 + ha, rest.2.2 + hc)
 
 /-! ## ReadLnCont
 
